@@ -34,3 +34,13 @@ Definition ex_byte_ops : list bop :=
 
 Definition ex_chan_ops : list cop :=
   [CFill; CConsume 2; CFill; CSeek 7; CFill; CConsume 1; CFill; CFill; CSeek 4; CFill; CSeek 9; CFill].
+
+(* evaluate a concrete history and check the op preconditions entry by entry *)
+Ltac forall_trace :=
+  match goal with
+  | |- Forall ?P ?t =>
+      let t' := eval vm_compute in t in
+      change (Forall P t');
+      repeat (apply Forall_cons; [cbv [sop_ok bop_ok cop_ok seekfrom_ok]; try exact I; vm_compute; try exact I; try reflexivity; try (split; congruence); try congruence|]);
+      apply Forall_nil
+  end.
